@@ -277,6 +277,13 @@ theorem step_changes_only_entering (s s' : SState) (hinv : Inv s) (h : step s = 
       ∀ y, y ≠ xi → y ≠ xj → isBasic s y = false → s'.mapping y = s.mapping y :=
   step_values s s' hinv h
 
+/-- PARTIAL case of `BlandNoRepeat` (distance one): a repair step always changes the configuration —
+the leaving variable is basic before and non-basic after.  The general statement (no configuration
+repeats at ANY distance along the run) is the one hypothesis that remains unproved. -/
+theorem bland_no_repeat_adjacent_partial (s s' : SState) (hinv : Inv s) (h : step s = .next s') :
+    conf (allVars s) s ≠ conf (allVars s) s' :=
+  step_changes_conf s s' hinv h
+
 example : (match step exampleSat with | .next _ => true | _ => false) = true := by decide +kernel
 
 end Holpy.C16
